@@ -27,7 +27,7 @@ Theorem token_roundtrip : forall t, is_atom t = true -> wf_tokb t = true ->
   exists lt, flat_tok t = [lt] /\
     forall g r ln, forallb is_space g = true -> boundary_ok lt r ->
       required group_pats false (g ++ ltok_text lt ++ r) ln
-        = Ok ((pat_of lt, ltok_text lt), (r, (ln + nl_count g)%Z)) /\
+        = Ok ((pat_of lt, ltok_text lt), (r, (ln + nl_count g + nl_count (ltok_text lt))%Z)) /\
       literal (pat_of lt) (ltok_text lt) = Ok t.
 Proof. exact Proofs.BstRoundtrip.token_roundtrip. Qed.
 Print Assumptions token_roundtrip.
@@ -113,38 +113,22 @@ Example unknown_command_example :
   FUNCTIONS {f} {}") = PyErr cls_token_required 2.
 Proof. vm_compute. reflexivity. Qed.
 
-(* every syntax error names the line of the offending position: if list(parse_string(src)) raises
-   (class 1 PrematureEOF, class 2 TokenRequired) with line l, then l is an existing line of the
-   source and the text handed to the scanner (line k of it is the comment-stripped line k of the
-   source) splits into pre ++ post with exactly l-1 line feeds in pre, where post is empty
-   (premature end), or post starts with the first character of a token that is not a name, or pre
-   ends with a name that is not a command.  Hypothesis: no string literal runs over a line end
-   (a quirk of the code: line feeds inside a string token are not counted, see notes/C15.md) *)
+(* every syntax error names the line of the offending position, for EVERY source: if
+   list(parse_string(src)) raises (class 1 PrematureEOF, class 2 TokenRequired) with line l, then l
+   is an existing line of the source and the text handed to the scanner (line k of it is the
+   comment-stripped line k of the source) splits into pre ++ post with exactly l-1 line feeds in
+   pre, where post is empty (premature end), or post starts with the first character of a token
+   that is not a name / not an opening brace where one is required, or pre ends with a name that is
+   not a command.  (After fix 6970deb the line feeds inside a string literal that runs over a line
+   end are counted, so no hypothesis about string literals is needed any more -- finding F29.) *)
 Theorem error_names_line : forall src c l,
-  ssl false (text_of_string src) = true -> parse_string src = PyErr c l ->
+  parse_string src = PyErr c l ->
   (1 <= l <= Z.of_nat (Nat.max 1 (length (splitlines src))))%Z /\
   exists pre post, text_of_string src = pre ++ post /\ l = (1 + lf pre)%Z /\ error_site c pre post.
 Proof. exact Proofs.BstErrors.error_names_line. Qed.
 Print Assumptions error_names_line.
 
-(* the same with a hypothesis on the source itself: every source line has an even number of
-   double quotes before its comment (no string literal left open at a line end) *)
-Theorem error_names_line_src : forall src c l,
-  balanced_quotes src -> parse_string src = PyErr c l ->
-  (1 <= l <= Z.of_nat (Nat.max 1 (length (splitlines src))))%Z /\
-  exists pre post, text_of_string src = pre ++ post /\ l = (1 + lf pre)%Z /\ error_site c pre post.
-Proof. exact Proofs.BstSource.error_names_line_src. Qed.
-Print Assumptions error_names_line_src.
-
-Example balanced_quotes_example : balanced_quotes (s2l "ENTRY {a}
-  {b} % "" {
-  { #x }").
-Proof. unfold balanced_quotes. vm_compute. repeat constructor. Qed.
-
 Example error_line_examples :
-  ssl false (text_of_string (s2l "ENTRY {a}
-  {b} % "" {
-  { #x }")) = true /\
   parse_string (s2l "ENTRY {a}
   {b} % "" {
   { #x }") = PyErr cls_token_required 3 /\
@@ -153,25 +137,11 @@ Example error_line_examples :
   ") = PyErr cls_premature 3.
 Proof. vm_compute. auto. Qed.
 
-(* FINDING F29 (known).  The property text: malformed source is rejected "with a syntax error that
-   names the line".  Full statement (false of the code): the line the scanner reports for a token is
-   1 + the number of line feeds before it.  Refuted: in   "a<LF>b" c   the name c is reported on
-   line 1 (Scanner.get_token does not count line feeds inside a STRING token), so after a string
-   literal that runs over a line end every later syntax error names a line too early
-   (multiline_string_quirk below).  error_names_line / error_names_line_src are the true variants:
-   they hold for every source whose string literals stay on one line -- which includes the
-   property's generated family and its single-token corruptions. *)
-Theorem lineno_counts_refuted : exists text pre v,
-  text = pre ++ v /\ lf pre = 1%Z /\ In (0%nat, v, 1%Z) (fst (scan_tokens (S (length text)) text 1%Z)).
-Proof. exact Proofs.BstErrors.lineno_counts_refuted. Qed.
-Print Assumptions lineno_counts_refuted.
-
-(* the hypothesis of error_names_line is needed: a string literal that runs over a line end makes
-   later errors name a line too early *)
-Example multiline_string_quirk :
+(* F29 (repaired by 6970deb), regression: the line feed inside the string literal is counted *)
+Example multiline_string_regression :
   parse_string (s2l "EXECUTE {""a
 b"" c}
-#") = PyErr cls_token_required 2.
+#") = PyErr cls_token_required 3.
 Proof. vm_compute. reflexivity. Qed.
 
 (* F21 (repaired in /repo by fix 135237f; the model follows the repaired code): every accepted
@@ -184,13 +154,12 @@ Print Assumptions arity_respected.
    well-formed groups and then by anything that is not an opening brace is rejected, with
    TokenRequired naming the line of the token that stands where the next group should open, or with
    PrematureEOF naming the last line if the text ends there.  (no_cr: as in every text parse_string
-   builds; ssl: no string literal runs over a line end, see F27 below.) *)
+   builds.) *)
 Theorem malformed_rejected_short_arguments : forall name groups rest gs n,
   wf_nameb name = true -> arity name = Some n -> (length groups < n)%nat ->
   forallb (forallb wf_tokb) groups = true -> short_rest_ok rest ->
   layout_okb None gs (LName name :: flat_map flat_group groups ++ rest) = true ->
   no_cr (weave gs (LName name :: flat_map flat_group groups ++ rest)) = true ->
-  ssl false (weave gs (LName name :: flat_map flat_group groups ++ rest)) = true ->
   exists pre post,
     weave gs (LName name :: flat_map flat_group groups ++ rest) = pre ++ post /\
     parse_text (weave gs (LName name :: flat_map flat_group groups ++ rest)) = PyErr (short_cls rest) (1 + lf pre)%Z /\
